@@ -1,5 +1,5 @@
 (* C14 — Merge routes every id to the one dataset that owns it. *)
-From Connectome Require Import Values Attrs VM Edges EdgesGen NameSet Relational RelFacts HashSound.
+From Connectome Require Import Values Attrs VM Edges EdgesGen NameSet RelBase MergeGen SortFacts MergeFacts HashSound.
 From Coq Require Import Sorting.Sorted.
 Local Open Scope list_scope.
 
